@@ -45,7 +45,7 @@ func genH2Beh(t *rapid.T, good, connFaults bool) Beh {
 		b.Status = rapid.IntRange(200, 599).Draw(t, "status")
 		b.Body = rapid.SampledFrom([]string{"", "x", "{not json", "<html><div", "null"}).Draw(t, "body")
 	}
-	if b.Kind == "short_body" && rapid.Bool().Draw(t, "announcesFarMore") {
+	if (b.Kind == "short_body" || b.Kind == "huge") && rapid.IntRange(0, 2).Draw(t, "announcesFarMore") == 0 {
 		b = announceBeh(t)
 	}
 	return b
@@ -378,7 +378,7 @@ func genH2ScenBeh(t *rapid.T) Beh {
 	case 8:
 		return Beh{Kind: "ok", Prices: genPrices(t)} // a catalogue page (for var/xpath steps with generated expressions)
 	default:
-		if rapid.IntRange(0, 2).Draw(t, "announcesFarMore") == 0 {
+		if rapid.Bool().Draw(t, "announcesFarMore") {
 			return announceBeh(t)
 		}
 		return genH2Beh(t, false, true)
